@@ -1123,6 +1123,7 @@ func (e *vfCFEnv) settle(ev vfCFEvent) (string, error) {
 				return "good", nil
 			}
 			e.pc = "loop"
+			e.allCP = nil // :698-705 fetch the lists anew next time
 			return "err", nil
 		}
 		e.pc = "tip"
@@ -1480,6 +1481,68 @@ func (e *vfCFEnv) exec(a vfCFAct) (string, error) {
 	return "", fmt.Errorf("unknown op %s", a.Op)
 }
 
+// modelCeil returns the smallest model height whose segment reaches real
+// height r.
+func (w *vfCFWorld) modelCeil(r int) int {
+	h := 0
+	for w.R(h) < r {
+		h++
+	}
+	return h
+}
+
+// mustAnswer lists the unbanned peers that always answer this kind of query.
+func (e *vfCFEnv) mustAnswer(q string) []int {
+	rs := []int{}
+	e.banMu.Lock()
+	defer e.banMu.Unlock()
+	for p := 1; p <= e.np; p++ {
+		if e.banned[p-1] == 1 || e.kind(p) == "T" || (q == "cfh" && e.kind(p) == "CX") {
+			continue
+		}
+		rs = append(rs, p)
+	}
+	return rs
+}
+
+// autoContinue is used after the code left the model's prediction in the
+// middle of a call: the remaining steps of the path no longer apply, but the
+// call in flight is driven to its end (every peer that always answers does,
+// the block is served) so that what it does is still observed and judged.
+func (e *vfCFEnv) autoContinue(out *vfCFPathOut) {
+	for n := 0; n < 12; n++ {
+		a := vfCFAct{Rs: []int{}}
+		switch e.pc {
+		case "q_cp":
+			a.Op, a.Rs, a.Hi = "GetCheckpts", e.mustAnswer("cp"), e.w.modelCeil(int(e.lastH))
+		case "r_cfh", "u_cfh":
+			a.Op, a.Rs = strings.ToUpper(e.pc[:1])+"Cfh", e.mustAnswer("cfh")
+			if q, ok := e.gate.msg.(*wire.MsgGetCFHeaders); ok {
+				a.Lo = e.w.modelCeil(int(q.StartHeight))
+				a.Hi = a.Lo
+				if _, r, ok := e.locate(q.StopHash); ok {
+					a.Hi = e.w.modelCeil(r)
+				}
+			}
+		case "r_flt", "u_flt":
+			a.Op, a.Rs = strings.ToUpper(e.pc[:1])+"Flt", e.mustAnswer("flt")
+		case "r_blk", "u_blk":
+			a.Op, a.N = strings.ToUpper(e.pc[:1])+"Blk", 1
+		case "cp_wait":
+			a.Op = "CPEnd"
+		default:
+			return
+		}
+		res, err := e.exec(a)
+		if err != nil {
+			return
+		}
+		a.Res = res
+		out.Steps = append(out.Steps, vfCFStepOut{Act: a, Obs: e.observe(),
+			Note: "call in flight continued after the deviation"})
+	}
+}
+
 func (e *vfCFEnv) shutdown() {
 	close(e.done)
 	if e.bm != nil {
@@ -1614,6 +1677,7 @@ func vfCFRunOnce(w *vfCFWorld, p vfCFPathIn) (out vfCFPathOut) {
 			// deviation from the model's prediction: the remaining steps
 			// of this path presuppose the predicted state, stop here
 			out.Stopped = fmt.Sprintf("step %d deviates from the model", i+1)
+			e.autoContinue(&out)
 			return
 		}
 	}
